@@ -659,6 +659,8 @@ func safeScrub(b []byte) (out []byte, status string) {
 }
 
 // runWrites feeds the chunks to a fresh LogScrubber; canonical outcome "<emissions> <pending>".
+var c07ReuseBuffer bool
+
 func runWrites(chunks [][]byte) (canon string, ems [][]byte, pending []byte, bad string) {
 	rec := &emissionRecorder{}
 	ls := &LogScrubber{Output: rec}
@@ -668,10 +670,33 @@ func runWrites(chunks [][]byte) (canon string, ems [][]byte, pending []byte, bad
 			bad = canon
 		}
 	}()
+	// callers such as io.CopyBuffer reuse one buffer for every Write and overwrite it afterwards: every
+	// other run does the same (the io.Writer contract forbids Write to retain the slice)
+	var shared []byte
+	if c07ReuseBuffer {
+		m := 0
+		for _, c := range chunks {
+			if len(c) > m {
+				m = len(c)
+			}
+		}
+		shared = make([]byte, m, m+64)
+	}
 	for _, c := range chunks {
-		n, err := ls.Write(append([]byte(nil), c...))
+		arg := append([]byte(nil), c...)
+		if c07ReuseBuffer {
+			arg = shared[:len(c)]
+			copy(arg, c)
+		}
+		n, err := ls.Write(arg)
 		if err != nil || n != len(c) {
 			bad = fmt.Sprintf("Write(%d bytes) = %d, %v", len(c), n, err)
+		}
+		if c07ReuseBuffer {
+			full := shared[:cap(shared)]
+			for i := range full {
+				full[i] = '#'
+			}
 		}
 	}
 	return hexList(rec.ems) + " " + vh.Hex(ls.buffer), rec.ems, append([]byte(nil), ls.buffer...), bad
@@ -1045,8 +1070,14 @@ func (c *c07) writerCase(g *gen, ls [][]piece) {
 		stream = bytes.ReplaceAll(stream, []byte("\n"), []byte("\r\n"))
 	}
 	chunks := splitRandom(rng, stream)
+	c07ReuseBuffer = rng.Intn(2) == 0
 	canon, ems, pending, bad := runWrites(chunks)
+	reused := c07ReuseBuffer
+	c07ReuseBuffer = false
 	caseLine := "c07 write " + hexList(chunks)
+	if reused {
+		caseLine += "   (caller reuses and overwrites its buffer after each Write)"
+	}
 	c.r.Case(fmt.Sprintf("write/lines%d/chunks%d", imin(k, 4), imin(len(chunks), 6)), caseLine, true)
 	if bad != "" {
 		c.r.OracleFail("write-result", caseLine, bad, "Write must return len(b), nil and must not panic")
